@@ -61,6 +61,37 @@ class ReprBomb:
     __str__ = __repr__
 
 
+class HostileObj:
+    """An arbitrary input object: each of the dunder methods a parser may touch is a hook fault site."""
+    __slots__ = ("n",)
+
+    def __init__(self, n):
+        self.n = n
+
+    def __str__(self):
+        faults.hook_point("obj.__str__")
+        return "ho%d" % self.n
+
+    def __repr__(self):
+        faults.hook_point("obj.__repr__")
+        return "<ho%d>" % self.n
+
+    def __format__(self, spec):
+        faults.hook_point("obj.__str__")
+        return "ho%d" % self.n
+
+    def __eq__(self, other):
+        faults.hook_point("obj.__eq__")
+        return self is other
+
+    def __ne__(self, other):
+        faults.hook_point("obj.__ne__")
+        return self is not other
+
+    def __hash__(self):
+        return self.n      # (not a fault site: the harness itself puts these objects into dicts)
+
+
 def _self_list():
     a = []
     a.append(a)
@@ -180,6 +211,10 @@ def gen_value(rng, t, pool, pos, depth, hostile_p):
         pairs = [[gen_value(rng, t[1], pool, pos, depth + 1, 0) if t[1][0] != "str" else "k%d" % pool.next(),
                   gen_value(rng, t[2], pool, pos, depth + 1, hostile_p)] for _ in range(rng.choice([0, 1, 2, 3]))]
         if t[1][0] == "str":
+            if pairs and rng.random() < 0.15:
+                # a key that is not a str but an object that has to be turned into one
+                pairs[0][0] = {"$ho": 10 + pool.next()}
+                return {"$map": pairs}
             d = {a: b for a, b in pairs}
             if depth >= 1 and rng.random() < 0.25:
                 return {"$fd": d}
@@ -220,6 +255,15 @@ def generate(rng, tier):
             t = gen_type(rng, rng.choice([0, 0, 1, 1, 2]))
             fields.append({"name": "p%d" % i, "type": t})
             inp["p%d" % i] = gen_value(rng, t, pool, pos, 1, hostile_p)
+        if api in ("schema", "dataclass") and rng.random() < 0.15:
+            # one field is given twice, under its name and under an alias, and the two values are arbitrary objects
+            f = rng.choice(fields)
+            f["alias"] = "al_" + f["name"]
+            inp[f["name"]] = {"$ho": 1}
+            plan["dup"] = {"al_" + f["name"]: {"$ho": 2}}
+        if api in ("schema", "dataclass") and rng.random() < 0.12:
+            fields.append({"name": "dsc", "type": ["disc"]})
+            inp["dsc"] = rng.choice([{"kind": "a"}, {"kind": {"$unhashable": 1}}, {"kind": {"$ho": 3}}, {"kind": "zz"}, 5])
         plan["fields"] = fields
         plan["input"] = inp
         if api in ("func_gen", "func_agen") and rng.random() < 0.5:
@@ -261,6 +305,9 @@ def generate(rng, tier):
         hooks.setdefault("key_str", {})[str(rng.choice([1, 1, 2, 3]))] = rng.choice(faults.EXC_NAMES)
     if ('"$bomb"' in kernel.jdump(plan.get("extras", {})) or hostile_p) and rng.random() < 0.6:
         hooks.setdefault("repr", {})[str(rng.choice([1, 1, 2, 3]))] = rng.choice(faults.EXC_NAMES)
+    if '"$ho"' in kernel.jdump([plan["input"], plan.get("dup")]):
+        for _ in range(rng.choice([1, 2])):
+            hooks.setdefault(rng.choice(["obj.__ne__", "obj.__eq__", "obj.__str__", "obj.__repr__"]), {})[str(rng.choice([1, 1, 2]))] = rng.choice(faults.EXC_NAMES)
     inputs = {}
     in_sites = []
     if plan.get("top_fd"):
@@ -309,8 +356,22 @@ def make_env():
     return {"hook": HookLeaf, "Inner": Inner}
 
 
+_DISC = {}
+
+
 def build_type(t, env):
     k = t[0]
+    if k == "disc":
+        if not _DISC:
+            from utype import Schema
+            try:
+                from typing import Literal
+            except ImportError:  # pragma: no cover
+                from typing_extensions import Literal
+            A = type("DA", (Schema,), {"__annotations__": {"kind": Literal["a"]}, "kind": "a", "__module__": "verif_c04", "__qualname__": "DA"})
+            B = type("DB", (Schema,), {"__annotations__": {"kind": Literal["b"]}, "kind": "b", "__module__": "verif_c04", "__qualname__": "DB"})
+            _DISC["t"] = typing.Union[A, B]
+        return _DISC["t"]
     if k == "hook":
         return env["hook"]
     if k == "b":
@@ -352,6 +413,10 @@ def build_value(v, hostile):
     if isinstance(v, dict):
         if "$bomb" in v:
             return ReprBomb()
+        if "$ho" in v:
+            return HostileObj(v["$ho"])
+        if "$unhashable" in v:
+            return []
         if "$b" in v:
             name, idx = v["$b"]
             if idx >= 0 and hostile:
@@ -441,6 +506,12 @@ def build_call(plan, env):
     if api in ("schema", "dataclass"):
         ns = {"__annotations__": {f["name"]: build_type(f["type"], env) for f in plan["fields"]},
               "__module__": "verif_c04", "__qualname__": "Top"}
+        from utype import Field as _Field
+        for f in plan["fields"]:
+            if f.get("alias"):
+                ns[f["name"]] = _Field(alias_from=[f["alias"]])
+            if f["type"] == ["disc"]:
+                ns[f["name"]] = _Field(discriminator="kind")
         if opts:
             ns["__options__"] = opts
         cls = type("Top", (Schema if api == "schema" else DataClass,), ns)
@@ -512,6 +583,10 @@ def _attempt(plan, env, hostile, budget):
     for k, x in (plan.get("extras") or {}).items():
         if plan.get("forbid_extras") and not hostile:
             continue     # the fault-free control does not carry the forbidden keys
+        value[k] = build_value(x, hostile)
+    if not hostile:
+        plan = dict(plan, dup=None)     # nor the second spelling of a field
+    for k, x in (plan.get("dup") or {}).items():
         value[k] = build_value(x, hostile)
     if plan.get("cast_keys"):
         value = {(KeyObj(k) if i % 2 == 0 else k): x for i, (k, x) in enumerate(value.items())}
@@ -616,7 +691,9 @@ def execute(plan):
 def _control_may_reject(plan):
     """Fixed tuples generated with a wrong arity legitimately reject even without faults."""
     s = kernel.jdump(plan.get("type") or [f["type"] for f in plan["fields"]])
-    return '"ftup"' in s
+    v = kernel.jdump([plan["input"], plan.get("dup")])
+    # arbitrary objects in the place of payloads, an unhashable or unknown discriminator: rejected without any fault too
+    return '"ftup"' in s or '"$ho"' in v or '"$unhashable"' in v or '"disc"' in s
 
 
 def _hostile_idx(v):
@@ -637,7 +714,19 @@ def _innermost(plan):
     kinds = set()
 
     def walk(t, v, holder):
+        try:
+            _walk(t, v, holder)
+        except (AttributeError, TypeError, KeyError, IndexError):
+            kinds.add("odd_shape")      # inputs that do not have the shape of their type (by design): no finer label
+
+    def _walk(t, v, holder):
         k = t[0]
+        if isinstance(v, dict) and ("$ho" in v or "$unhashable" in v):
+            kinds.add("hostile_obj")
+            return
+        if k == "disc":
+            kinds.add("disc")
+            return
         if isinstance(v, dict) and "$r" in v:
             if any((v["$r"] + off) in fl for off in faults.LEAF_OFFSET.values()):
                 kinds.add(holder if k in ("leaf", "leaf2", "keyleaf", "hook") else k)
